@@ -92,9 +92,9 @@ PROPS["C17"] = dict(
           "entries carry metadata nil / empty / equal to / different from the looked-up metadata, main provider present or absent in either list, "
           "metadata lists shorter / longer / nil relative to the provider lists; delivered through a fake source and (1 in 5) through the HTTP/JSON "
           "source; GetResults is compared, in order, with a 30-line specification function, or must return an error; never panic. "
-          "distinct_nontrivial = distinct record shapes (sequence of set kinds, main-provider positions, metadata kinds, mismatch kinds) with "
+          "A third of the cases expand the same cached record again with other metadata / another context id and then once more with the first arguments; one source list in 25 carries a null entry next to the record. distinct_nontrivial = distinct record shapes (sequence of set kinds, main-provider positions, metadata kinds, mismatch kinds) with "
           "extended providers."),
-    floors={"quick": {"shape_md-shorter": 500, "shape_md-longer": 500, "shape_md-nil": 500, "via_http_json": 1000, "expanded_results": 5000, "updated_in_place_then_refreshed": 2000, "distinct": 3000}},
+    floors={"quick": {"repeated_lookups_with_other_arguments": 15000, "source_lists_with_a_null_entry": 1500, "shape_md-shorter": 500, "shape_md-longer": 500, "shape_md-nil": 500, "via_http_json": 1000, "expanded_results": 5000, "updated_in_place_then_refreshed": 2000, "distinct": 3000}},
     level_text=("Exploration: GetResults is executed on seeded records covering every clause of the expansion rules and every list-length "
                 "mismatch a source can deliver, and compared with an independently written specification."),
     level_note="Trusted: the specification function c17Spec in harness/props/c17.go (written from the property statement and the IPNI spec).",
@@ -132,8 +132,8 @@ PROPS["C05"] = dict(
           "flips in each of the four fields of EVERY signature envelope (located by parsing the protobuf; semantically identical mutants "
           "skipped), and removal of the main provider from the list. key-assignment: for seeded ads with 2..3 extended-provider entries, ALL "
           "assignments of {ad signer, each entry's own key, a stranger} to the entries: valid iff every non-main entry is sealed by the identity "
-          "it names and the main entry by the ad's signer. distinct_nontrivial = distinct (ad shape, signer key type) tuples."),
-    floors={"quick": {"assignments_invalid": 2000, "assignments_valid": 100, "mut_ep-identity": 200, "mut_previous-link-removed": 200, "env_public_key": 1500, "env_signature": 1500, "main_removed": 100}},
+          "it names and the main entry by the ad's signer. Sub-check removal-with-extended-providers: removal ads carrying extended providers whose entries are unsigned, garbage, signed for the non-removal ad, lacking the main provider, or sealed by the ad signer must not verify; library signing of such an ad must be refused or give a fully valid ad. distinct_nontrivial = distinct (ad shape, signer key type) tuples."),
+    floors={"quick": {"removal_ep_cases": 120, "assignments_invalid": 2000, "assignments_valid": 100, "mut_ep-identity": 200, "mut_previous-link-removed": 200, "env_public_key": 1500, "env_signature": 1500, "main_removed": 100}},
     level_text=("Exploration: real signing and verification over generated advertisements of every shape and key type; every single-value "
                 "mutation the statement lists and located byte flips in every envelope must be rejected; the full assignment space of signing "
                 "keys to extended-provider entries is enumerated per ad."),
@@ -217,7 +217,7 @@ PROPS["C03"] = dict(
           "/p2p/<id> in the address): rejected, no block request after the head request, no hook, no store write, latest-synced unchanged; "
           "genuine heads sync; and every head the publisher serves validates to its own ID, root and topic. distinct_nontrivial = distinct "
           "(key type, alteration, topic present / mount / id placement) tuples."),
-    floors={"quick": {"e2e_rejections_expected": 120, "e2e_genuine_syncs": 10, "bytes_decodable_rejected": 2000, "publisher_heads_checked": 150, "e2e_mode_libp2phttp-discovery": 20, "e2e_replays_after_genuine_sync": 5, "setroot_then_head_checks": 200}},
+    floors={"quick": {"e2e_asked_for_other_identity_than_in_address": 20, "e2e_rejections_expected": 120, "e2e_genuine_syncs": 10, "bytes_decodable_rejected": 2000, "publisher_heads_checked": 150, "e2e_mode_libp2phttp-discovery": 20, "e2e_replays_after_genuine_sync": 5, "setroot_then_head_checks": 200}},
     level_text=("Exploration: real signing, encoding, head queries and syncs; every listed alteration kind and every byte of sampled encodings is "
                 "tried for every key type, and the end-to-end effect (no request after the head, no latest-synced change) is observed at a "
                 "logging publisher front."),
@@ -261,9 +261,9 @@ PROPS["C16"] = dict(
           "and Next, which may legitimately wait, get a context that is cancelled after a grace period. interleavings: 2..4 goroutines with seeded "
           "scripts racing Close with the other calls, then calls after the Close completed must return the closed error; pubsub-shutdown: "
           "receiver on a real libp2p host + gossip topic, 1..3 concurrent closers, watcher goroutine must be gone; host-without-topic: a "
-          "receiver created with a libp2p host and no topic runs seeded call sequences around a Close. distinct_nontrivial = "
+          "receiver created with a libp2p host and no topic runs seeded call sequences around a Close. The sequences run once without and once with an allow filter that rejects the announcing peer. Sub-check close-wakes-blocked-calls: 1..3 Direct calls blocked on a full buffer, or Next calls on an empty one, with contexts that are never cancelled; 1..2 closers; every blocked call must return (hang rule applied to the blocked call itself) with the closed error. distinct_nontrivial = "
           "distinct sequences / script sets."),
-    floors={"quick": {"sequences_with_repeated_close": 50, "concurrent_runs": 250, "pubsub_shutdowns": 4, "gossip_announcements_handled_before_close": 8, "host_without_topic_runs": 10}},
+    floors={"quick": {"sequences_with_repeated_close": 50, "concurrent_runs": 250, "pubsub_shutdowns": 4, "gossip_announcements_handled_before_close": 8, "host_without_topic_runs": 10, "blocked_calls_woken_by_close": 25, "sequences_with_rejecting_allow_filter": 100}},
     watchdog_s={"quick": 900, "thorough": 7200},
     gomaxprocs=4,
     level_text=("Exploration (sequential part exhaustive to the stated length): every call is observed to return; hangs are decided "
@@ -284,9 +284,9 @@ PROPS["C01"] = dict(
           "libp2p-HTTP discovery mounts. A real Subscriber syncs a real Publisher behind a logging front; hooks, SyncFinished.Count, returned "
           "head, latest-synced, requests seen by the publisher and the destination store are compared with a reference model, and with a "
           "twin run with segmentation off and nothing pre-stored. entries: SyncEntries (EntriesDepthLimit / scoped / -1, segmented), "
-          "SyncOneEntry, SyncHAMTEntries over link trees without shared children. distinct_nontrivial = distinct configurations whose expected "
+          "SyncOneEntry, SyncHAMTEntries over link trees without shared children. One case in eight cancels the caller's context from the block hook at the n-th reported block: a sync that then fails is not judged here, one that reports success must still be exact. distinct_nontrivial = distinct configurations whose expected "
           "list is non-empty and where a stop point inside the chain, a binding depth, a segment smaller than the list or a pre-stored block is present."),
-    floors={"quick": {"segmented_cases": 800, "segment_ends_exactly_on_stop_block": 50, "depth_not_multiple_of_segment": 30, "depth_limit_binding": 300, "stop_equals_head": 30,
+    floors={"quick": {"syncs_failed_by_cancellation_from_the_hook": 8, "syncs_successful_although_cancelled_from_the_hook": 150, "segmented_cases": 800, "segment_ends_exactly_on_stop_block": 50, "depth_not_multiple_of_segment": 30, "depth_limit_binding": 300, "stop_equals_head": 30,
                       "with_prestored_blocks": 1000, "discovery_mount": 100, "entries_kind_hamt": 100, "entries_kind_one": 100, "distinct": 1000}},
     level_text=("Exploration: thousands of real syncs over the configuration space of the quantifier, each compared with an independent "
                 "reference model of 'head back to the stop point, cut at the applicable depth' and with a differential twin; the publisher's "
@@ -309,8 +309,8 @@ PROPS["C02"] = dict(
           "(only the first corrupts). Three phases per case against one store: corrupted sync, honest retry, resync with another position "
           "corrupted. After EVERY sync every key/value of the destination store is re-hashed with the CID's own function and length, hooks must "
           "name only blocks stored intact, the corrupted sync must fail iff the corrupted response was actually consumed, and the store after "
-          "the honest retry must equal the publisher's. distinct_nontrivial = distinct (hash prefix, corruption, position, mode) tuples."),
-    floors={"quick": {"corrupted_response_consumed": 1500, "audited_store_entries": 5000, "two_address_cases": 200, "big_block_cases": 40, "hash_identity": 100, "hash_sha2-256/16": 100}},
+          "the honest retry must equal the publisher's. Corruption kind cut-mid-body announces the full length and cuts the connection after k bytes (a read error mid-body); the next answer for that CID then carries only the remainder. Sub-check failing-store: the LOCAL store fails one chosen block write after k bytes and still commits what it has; the sync must fail, nothing that does not hash to its CID may be stored or reported, and the retry with a working store must complete. distinct_nontrivial = distinct (hash prefix, corruption, position, mode) tuples."),
+    floors={"quick": {"remainder_only_answers": 60, "store_write_faults_hit": 150, "corrupted_response_consumed": 1500, "audited_store_entries": 5000, "two_address_cases": 200, "big_block_cases": 40, "hash_identity": 100, "hash_sha2-256/16": 100}},
     level_text=("Fault enumeration over (hash prefix x corruption kind x request position x mode), sampled with a seeded PRNG: the real "
                 "subscriber syncs from a real publisher whose responses are corrupted in flight; the destination store is audited entry by entry."),
     level_note="Trusted: go-multihash for the audit re-hash (same library the code under test uses; an independent implementation is not available offline).",
@@ -381,8 +381,8 @@ PROPS["C07"] = dict(
           "pcache frame; an always-reported provider is never missing; per reader, versions never go back; without auto refresh every List is "
           "one of the version vectors published by a refresh that overlaps the call. reads-do-not-wait: a Refresh / miss-fetch / automatic "
           "refresh is held open inside the source and 2..15 readers must each complete 1000 cached lookups BEFORE it is released (a watchdog "
-          "+ goroutine dumps only classify the failure). distinct_nontrivial = distinct run configurations."),
-    floors={"quick": {"reads": 100000, "reads_overlapping_a_refresh": 5000, "list_snapshot_checks": 2000, "publications": 1500, "nowait_refresh": 3, "nowait_miss-fetch": 3, "nowait_auto-refresh": 3,
+          "+ goroutine dumps only classify the failure). Sub-check late-miss-answer-vs-refresh: a lookup miss is held inside a source that decided its answer when the request arrived, the source learns a newer version (or starts reporting the provider), a refresh is requested, the miss is released: the provider must not go back to the older record or disappear, and after the refresh the newest record is shown. distinct_nontrivial = distinct run configurations."),
+    floors={"quick": {"late_miss_answer_cases": 20, "reads": 100000, "reads_overlapping_a_refresh": 5000, "list_snapshot_checks": 2000, "publications": 1500, "nowait_refresh": 3, "nowait_miss-fetch": 3, "nowait_auto-refresh": 3,
                       "lookups_completed_while_writer_held": 50000}},
     watchdog_s={"quick": 900, "thorough": 7200},
     level_text=("Exploration: stress runs of the real cache under the race detector with delays injected at the publication points; every read is "
@@ -461,7 +461,7 @@ PROPS["C15"] = dict(
           "listener channels are closed; every entry point (SyncAdChain, SyncEntries, SyncOneEntry, SyncHAMTEntries, Announce, OnSyncFinished, "
           "cancel functions, Get/SetLatestSync, RemoveHandler, HttpPeerStore, Close) returns on the closed subscriber (hang rule); no goroutine "
           "with a dagsync/announce frame remains. distinct_nontrivial = distinct (sync kind, close point, closers, racing activity) tuples."),
-    floors={"quick": {"post_close_calls": 800, "close_point_reached_sync.enter": 5, "close_point_reached_front": 5, "close_point_reached_pending.taken": 2, "closers_4": 5, "close_with_sync_waiting_for_async_slot": 1}},
+    floors={"quick": {"close_with_second_explicit_sync_queued": 15, "post_close_calls": 800, "close_point_reached_sync.enter": 5, "close_point_reached_front": 5, "close_point_reached_pending.taken": 2, "closers_4": 5, "close_with_sync_waiting_for_async_slot": 1}},
     watchdog_s={"quick": 900, "thorough": 7200},
     level_text=("Exploration over schedules: Close is started at every instrumented point of a running sync; what happens after its first return "
                 "is read from the event log and goroutine dumps; blocking is decided by the hang rule."),
